@@ -554,4 +554,75 @@ bool vh::run_case(std::string const& opname, Toks& in, Out& impl, Out& ref)
     return false;
 }
 
-VERIF_MAIN()
+// Supervisor: like vh::supervise (a crashing case becomes the impl leg "crash <sig>" and the
+// child is re-forked behind it), but after MAX_CRASHES crashed cases the remaining cases are
+// not executed any more ("skip" legs, ignored by the engine): a change of the library that
+// makes every second call abort under ASan would otherwise cost one process start per case.
+// The crashes already reported are correspondence breaks / violations on their own.
+int main(int argc, char** argv)
+{
+    constexpr std::size_t MAX_CRASHES = 40;
+    for (int a = 1; a < argc; ++a) {
+        if (std::strcmp(argv[a], "--nofork") == 0) { return vh::supervise(argc, argv); }
+    }
+    std::vector<std::string> cases;
+    {
+        static char buf[1 << 16];
+        while (std::fgets(buf, sizeof buf, stdin) != nullptr) {
+            std::string line = buf;
+            while (!line.empty() && (line.back() == '\n' || line.back() == '\r')) { line.pop_back(); }
+            cases.push_back(line);
+        }
+    }
+    auto* done = static_cast<volatile std::size_t*>(
+        mmap(nullptr, sizeof(std::size_t), PROT_READ | PROT_WRITE, MAP_SHARED | MAP_ANONYMOUS, -1, 0));
+    *done = 0;
+    auto run_from = [&](std::size_t start) {
+        for (std::size_t k = start; k < cases.size(); ++k) {
+            Toks in(cases[k]);
+            Out impl;
+            Out ref;
+            std::string op = in.str();
+            if (op.empty() || op[0] == '#') {
+                std::fputs("skip | na\n", stdout);
+            } else {
+                if (!vh::run_case(op, in, impl, ref)) { impl.s = "unknown-op"; }
+                if (impl.empty()) { impl.tok("void"); }
+                if (ref.empty()) { ref.tok("na"); }
+                std::fputs(impl.s.c_str(), stdout);
+                std::fputs(" | ", stdout);
+                std::fputs(ref.s.c_str(), stdout);
+                std::fputc('\n', stdout);
+            }
+            std::fflush(stdout);
+            *done = k + 1;
+        }
+    };
+    std::size_t start   = 0;
+    std::size_t crashes = 0;
+    while (start < cases.size()) {
+        std::fflush(stdout);
+        if (crashes >= MAX_CRASHES) {
+            for (std::size_t k = start; k < cases.size(); ++k) { std::fputs("skip | na\n", stdout); }
+            break;
+        }
+        pid_t pid = fork();
+        if (pid == 0) {
+            run_from(start);
+            std::_Exit(0);
+        }
+        int status = 0;
+        waitpid(pid, &status, 0);
+        if (WIFEXITED(status) && WEXITSTATUS(status) == 0 && *done == cases.size()) { break; }
+        std::size_t bad = *done;
+        if (bad >= cases.size()) { break; }
+        int sig = WIFSIGNALED(status) ? WTERMSIG(status) : 1000 + WEXITSTATUS(status);
+        std::printf("crash %d | na\n", sig);
+        std::fflush(stdout);
+        ++crashes;
+        *done = bad + 1;
+        start = bad + 1;
+    }
+    std::fflush(stdout);
+    return 0;
+}
